@@ -471,6 +471,34 @@ func (r *runner) witnessMutations() {
 	}
 	r.expect("layout", false, r.withArgs(nil), "accepts-empty-witness", "empty witness", nil)
 
+	// two inputs locked by the same program and keys: every signature is bound to its own input
+	{
+		d2 := txmut.Clone(r.base)
+		sib := txmut.CloneInput(r.base.Inputs[0])
+		sc, _ := spendCommitment(sib)
+		sc.SourceID = bc.Hash{V0: ourSourceTag, V1: 77, V2: 2, V3: 3}
+		d2.Inputs[1] = sib
+		tx2 := types.NewTx(*d2)
+		var w [2][][]byte
+		for in := 0; in < 2; in++ {
+			var sigs [][]byte
+			for i := 0; i < p.m; i++ {
+				sigs = append(sigs, p.keys[i].sign(sigHash(tx2, in)))
+			}
+			w[in] = p.witness(sigs)
+		}
+		with := func(a, b [][]byte) *types.TxData {
+			d := txmut.Clone(d2)
+			setArgs(d, 0, a)
+			setArgs(d, 1, b)
+			return d
+		}
+		r.expect("sibling-input-own-signatures", true, with(w[0], w[1]), "", "two inputs of the same program, each with its own signatures", nil)
+		r.expect("sibling-input-replay", false, with(w[0], w[0]), "accepts-signature-replayed-on-sibling-input", "signatures of input 0 reused on input 1 (same keys)", nil)
+		r.expect("sibling-input-replay", false, with(w[1], w[1]), "accepts-signature-replayed-on-sibling-input", "signatures of input 1 reused on input 0 (same keys)", nil)
+		r.expect("sibling-input-replay", false, with(w[1], w[0]), "accepts-signature-replayed-on-sibling-input", "signatures of the two inputs exchanged", nil)
+	}
+
 	switch p.kind {
 	case "p2wpkh":
 		// a complete, self-consistent witness of another key
@@ -511,6 +539,18 @@ func knownFromC03(field string) bool {
 		return true
 	}
 	return false
+}
+
+// quick tier: of the 256 single-bit flips of a 32-byte hash field only every 16th bit is replayed
+// against the signature (C03 runs all of them against the id; thorough runs all of them here too).
+func thinned(path string) bool {
+	i := strings.LastIndex(path, ":flipbit")
+	if i < 0 {
+		return false
+	}
+	n := 0
+	fmt.Sscanf(path[i+len(":flipbit"):], "%d", &n)
+	return n%16 != 0
 }
 
 func spendCommitment(in *types.TxInput) (*types.SpendCommitment, [][]byte) {
@@ -586,6 +626,9 @@ func (r *runner) fieldMutations() {
 			return
 		}
 		if m.Class != txmut.Consensus {
+			continue
+		}
+		if !r.thorough && thinned(m.Path) {
 			continue
 		}
 		d := txmut.Clone(signed)
@@ -676,7 +719,7 @@ func main() {
 	run := ev.Start("C02", "exploration")
 	maxN := run.Pick(3, 6)
 	run.Set("max_n", maxN)
-	run.Set("rule", "programs: P2WPKH (one std-lib key, one chainkd wallet-style key), P2WSH(m-of-n) and bare multisig for every 1<=m<=n<=max_n, each as spend input and as veto input of a 2-input 3-output transaction. Cases: every sequence with repetition of m-1, m, m+1 signers out of n (valid iff the last m are strictly increasing); on the reference valid spend every single-bit flip of every signature (512 each), S+L, wrong lengths, outsider key, sighash of the other input / another tx / the bare tx id, every single-bit flip and length change of the pubkey / redeem script in the witness, wrong layouts, foreign self-consistent witness, lower-threshold script; every consensus-class single-field mutation of the signed transaction from the C03 list (must fail with the old signature; re-signed to show the signature decided). distinct_nontrivial = cases expected valid that validated + committed-field mutations that failed with the stale signature and validated once re-signed.")
+	run.Set("rule", "programs: P2WPKH (one std-lib key, one chainkd wallet-style key), P2WSH(m-of-n) and bare multisig for every 1<=m<=n<=max_n, each as spend input and as veto input of a 2-input 3-output transaction. Cases: every sequence with repetition of m-1, m, m+1 signers out of n (valid iff the last m are strictly increasing); on the reference valid spend every single-bit flip of every signature (512 each), S+L, wrong lengths, outsider key, sighash of the other input / another tx / the bare tx id, signatures replayed between two inputs of the same program, every single-bit flip and length change of the pubkey / redeem script in the witness, wrong layouts, foreign self-consistent witness, lower-threshold script; every consensus-class single-field mutation of the signed transaction from the C03 list (quick: hash fields every 16th bit, thorough: every bit; must fail with the old signature; re-signed to show the signature decided). distinct_nontrivial = cases expected valid that validated + committed-field mutations that failed with the stale signature and validated once re-signed.")
 	run.Assume("ed25519 and SHA3/RIPEMD160 are trusted; signatures made with crypto/ed25519 (std) and chainkd.XPrv.Sign over SHA3-256(input entry id || tx id) computed here")
 	run.Assume("Tx.ID / input entry ids are taken from types.MapTx (their completeness is C03's subject); unspendable-output program/vote fields that C03 reports as missing from the id are recorded under coverage.signature_does_not_cover (not re-reported here)")
 	run.Assume("an extra witness item below a valid witness is ignored by the programs and counted valid: it contains valid signatures of the committed keys over this transaction")
